@@ -218,8 +218,7 @@ struct Exec {
       if (k == 0) ref = s; else ST_REQ(s == ref, "order-det", "filtration order depends on the sort schedule: " + seq_str(mo, ref) + " vs " + seq_str(mo, s));
       bool all_inf = any_inf; for (Mask x : mo.simplices()) if (mo.val[x] != std::numeric_limits<double>::infinity()) all_inf = false;
       if (all_inf) r.count("probe.order_all_infinite");
-      // known finding C03-KF1: with every simplex ignored the cache is empty, which the range takes for "not initialised" and re-sorts everything
-      if (any_inf && !(all_inf && r.kf("C03-KF1"))) {
+      if (any_inf) {
         auto si = read_order(st, mo, true, true);
         check_order_valid(mo, si, true, "filtration_simplex_range(ignore_infinite_values)");
         if (k == 0) ref_ign = si; else ST_REQ(si == ref_ign, "order-det", "filtration order (ignoring infinite values) depends on the sort schedule");
